@@ -10,7 +10,9 @@ from ..draw import composite
 RULE = {
     "C09": ("inputs: all strings of length<=k over the 12/24-symbol lexical alphabets (exhaustive) + Hypothesis lexeme "
             "soups; oracle: every token's pos equals the (line, visual column) of its first raw character as found by "
-            "the independent alignment scanner, and every BAD_LEXEME diagnostic sits on the skipped character; "
+            "the independent alignment scanner, and every BAD_LEXEME diagnostic sits on the skipped character; for generated programs (family members, stacked "
+            "variants, lexical fragments) every rule diagnostic points at the true start of a token or column 1 of a line and every lexical "
+            "diagnostic inside the literal it reports; "
             "non-trivial = input has a tab off a tab stop, a multi-line token, a splice or a di/trigraph followed by "
             ">=1 more token on the same physical line; distinct by SHA-1 of the input"),
     "C10": ("inputs: as C09; oracle: the alignment scanner lays the token texts over the whole raw input in order under "
@@ -182,7 +184,68 @@ def shard_soup(pid, seed, n):
     return camp
 
 
+LEXICAL_CODES = {"UNEXPECTED_EOF_CHR", "UNEXPECTED_EOL_CHR", "UNEXPECTED_EOF_MC", "UNEXPECTED_EOF_STR", "EMPTY_CHAR", "CHAR_AS_STRING", "INVALID_SUFFIX",
+                 "BAD_FLOAT_SUFFIX", "INVALID_BIN_INT", "INVALID_OCT_INT", "INVALID_HEX_INT", "MAXIMAL_MUNCH", "NO_HEX_DIGITS", "UNKNOWN_ESCAPE", "BAD_EXPONENT",
+                 "MULTIPLE_DOTS", "MULTIPLE_X", "BAD_LEXEME"}
+
+
+def diag_positions(camp, name, text, variant=None):
+    """C09 (iii): every rule diagnostic points at the true start of a token or at column 1 of an existing line;
+    every lexical diagnostic points inside the literal it reports (or at the bad character)."""
+    from .. import adapters
+    r = adapters.analyse(name, text, keep_tokens=True)
+    if r.status == "CRASH" or r.tokens is None:
+        camp.count("crash(->C05)")
+        return
+    toks = r.tokens
+    bad = [(e.highlights[0].lineno, e.highlights[0].column) for e in r.errors if e.name == "BAD_LEXEME"]
+    res = scan.check(text, toks, bad)
+    camp.case("D\0" + text, len(r.diags) >= 1)
+    camp.count("programs-with-diagnostic-positions-checked")
+    if not res["roundtrip"] or not res["positions_ok"]:
+        camp.count("token-positions-wrong(reported-by-the-token-part)")
+        return
+    pos = scan.positions(text)
+    starts = res["starts"]
+    token_starts = {tuple(t.pos) for t in toks}
+    literal_pos = set(bad)
+    for k, t in enumerate(toks):
+        if t.type in ("CONSTANT", "CHAR_CONST", "STRING", "COMMENT", "MULT_COMMENT") and starts[k] is not None:
+            end = starts[k + 1] if k + 1 < len(toks) and starts[k + 1] is not None else len(text)
+            for off in range(starts[k], end + 1):
+                if off < len(pos):
+                    literal_pos.add(pos[off])
+    nl = text.count("\n") + (0 if text.endswith("\n") or not text else 1)
+    for e in r.errors:
+        h = e.highlights[0]
+        p = (h.lineno, h.column)
+        if e.name in LEXICAL_CODES:
+            if p not in literal_pos:
+                camp.fail("C09|diagnostic-position|lexical|%s" % e.name, "%s points at %s, outside the literal it reports" % (e.name, p),
+                          {"name": name, "text": text, "origin": "program", "variant": variant})
+        elif p not in token_starts and not (p[1] == 1 and 1 <= p[0] <= max(nl, 1)):
+            camp.fail("C09|diagnostic-position|rule|%s" % e.name, "%s points at %s, which is neither the start of a token nor column 1 of a line" % (e.name, p),
+                      {"name": name, "text": text, "origin": "program", "variant": variant})
+
+
+def shard_programs(seed, n):
+    from .. import family, operators
+    from ..props import c08
+    camp = core.Campaign()
+
+    def body(files):
+        for name, text, kind in files:
+            diag_positions(camp, name, text, kind)
+
+    core.hyp_run(body, c08.report_case(), seed, n)
+    return camp
+
+
 def replay(pid, case):
+    if case.get("origin") == "program":
+        camp = core.Campaign()
+        diag_positions(camp, case["name"], case["text"])
+        return [(k, b["what"]) for k, b in camp.buckets.items()]
     camp = core.Campaign()
     check_one(camp, pid, case["text"], case.get("name", "x.c"), "replay")
     return [(k, b["what"]) for k, b in camp.buckets.items()]
@@ -226,6 +289,9 @@ def run(pid, tier, seed):
                 jobs.append((shard_exhaustive, dict(pid=pid, alphabet=alpha, n=n, lo=lo, hi=min(total, lo + chunk))))
     for s in range(sshards):
         jobs.append((shard_soup, dict(pid=pid, seed=core.seed_of(seed, s, 9), n=nsoup)))
+    if pid == "C09":
+        for s in range(8):
+            jobs.append((shard_programs, dict(seed=core.seed_of(seed, 40 + s, 9), n=25 if tier == "quick" else 600)))
     camp = core.Campaign()
     # regression replays first
     for name, rc in core.regress_cases(pid):
